@@ -17,6 +17,7 @@ type Access struct {
 	What  string          // load, store, map-insert, map-delete, map-lookup, len, range, index, append, atomic:<fn>, lockop, ...
 	Base  ssa.Value       // the struct (pointer) the field belongs to
 	Addr  *ssa.FieldAddr
+	Via   *ssa.Phi // the access goes through a local pointer merged from several addresses: it is one only on the ways on which the pointer is Addr
 }
 
 var atomicFuncs = map[string]string{
@@ -57,6 +58,22 @@ func accessesIn(fn *ssa.Function) []Access {
 				}
 			case *ssa.FieldAddr:
 				// nested struct field: accounted for by the inner FieldAddr itself
+			case *ssa.Phi:
+				// the address is merged with other field addresses (and nil) into a local pointer that is only tested and
+				// dereferenced here (`counter := &cse.numReady | &cse.numConnecting | nil; if counter != nil { *counter += d }`):
+				// each dereference is an access of this field on the ways on which the pointer is this address
+				if derefs, local := localPointerMerge(x); local {
+					for _, d := range derefs {
+						switch y := d.(type) {
+						case *ssa.UnOp:
+							out = append(out, Access{Fn: fn, Instr: y, Field: fieldRefOfAddr(fa), Mode: "R", What: "load", Base: fa.X, Addr: fa, Via: x})
+						case *ssa.Store:
+							out = append(out, Access{Fn: fn, Instr: y, Field: fieldRefOfAddr(fa), Mode: "W", What: "store", Base: fa.X, Addr: fa, Via: x})
+						}
+					}
+				} else {
+					add(r, fa, "X", "address used by "+r.String())
+				}
 			case *ssa.DebugRef:
 			case *ssa.Call, *ssa.Go, *ssa.Defer:
 				cc := callCommon(r)
@@ -81,6 +98,67 @@ func accessesIn(fn *ssa.Function) []Access {
 		}
 	})
 	return out
+}
+
+// localPointerMerge: ph merges field addresses (and nil, and other such merges) into a pointer that is used for nothing but
+// nil tests, loads and stores through it (and further merges of the same kind); returns the dereferencing instructions.
+func localPointerMerge(ph *ssa.Phi) ([]ssa.Instruction, bool) {
+	seen := map[*ssa.Phi]bool{}
+	var derefs []ssa.Instruction
+	var walk func(q *ssa.Phi) bool
+	walk = func(q *ssa.Phi) bool {
+		if seen[q] {
+			return true
+		}
+		seen[q] = true
+		for _, e := range q.Edges {
+			switch y := e.(type) {
+			case *ssa.FieldAddr:
+			case *ssa.Const:
+				if y.Value != nil {
+					return false
+				}
+			case *ssa.Phi:
+				if !walk(y) {
+					return false
+				}
+			default:
+				return false
+			}
+		}
+		refs := q.Referrers()
+		if refs == nil {
+			return true
+		}
+		for _, r := range *refs {
+			switch y := r.(type) {
+			case *ssa.UnOp:
+				if y.Op != token.MUL {
+					return false
+				}
+				derefs = append(derefs, y)
+			case *ssa.Store:
+				if y.Addr != ssa.Value(q) {
+					return false
+				}
+				derefs = append(derefs, y)
+			case *ssa.BinOp:
+				if y.Op != token.EQL && y.Op != token.NEQ {
+					return false
+				}
+			case *ssa.DebugRef:
+			case *ssa.Phi:
+				if !walk(y) {
+					return false
+				}
+			default:
+				return false
+			}
+		}
+		return true
+	}
+	ok := walk(ph)
+	return derefs, ok
 }
 
 // contentAccesses reports operations on the map / slice / channel value v loaded from a field.
